@@ -297,10 +297,40 @@ def leading_text_skip(ctx, P):
               missing=None if (opener is not None and skips == [opener]) else 'skips to %r but the line parser needs %r right there: leading text that contains the shorter pattern makes the armor unreadable' % (skips, opener))
 
 
+def dash_line_tolerates_trailing_blanks(ctx, P):
+    """RFC 9580 6.2: the armor header and tail lines "MUST NOT have text other than whitespace following them on the same line" -
+    whitespace is allowed there.  The line parsers are nom sequences `.. armor_header_sep, line_ending ..`: in every sequence of
+    armor::reader that names the five-dash separator directly before the line ending, a blank skipper (`space0`) stands between the
+    two (read off the resolved generic arguments of the combinator calls)."""
+    n = 0
+    bad = []
+    for p, r in sorted(ctx.f.bodies.items()):
+        if not p.startswith('armor::reader::') or '::tests::' in p:
+            continue
+        b = ctx.wrap(r)
+        for i, t in b.calls(r'nom::sequence::(pair|terminated|delimited|preceded|tuple)$|nom::Parser::parse$'):
+            full = t['f'].get('full') or ''
+            k = full.rfind('{armor::reader::armor_header_sep}')
+            if k < 0:
+                continue
+            rest = full[k:]
+            m = re.search(r'\{nom::character::(?:streaming|complete)::line_ending', rest)
+            if not m:
+                continue
+            n += 1
+            if not re.search(r'\{nom::character::(?:streaming|complete)::(space0|multispace0|space1)', rest[:m.start()]):
+                bad.append(site(b, i))
+    bad = sorted(set(bad))
+    ctx.check(P + ':S10-8:dash-line-trailing-blanks', 'R-table', 'every armor header / tail line parser skips blanks between the closing dashes and the line ending',
+              n >= 2 and not bad, count=n, site=bad[0] if bad else None, function='armor::reader::armor_header_line',
+              missing=None if (n >= 2 and not bad) else ('the sequence at %s goes from the five dashes straight to the line ending: `-----BEGIN PGP MESSAGE----- ` followed by a line break is refused' % bad[0] if bad else 'dash line sequences not found'))
+
+
 def run(ctx):
     P = 'C10'
     stream.r_lost(ctx, P, 'S10-1')
     leading_text_skip(ctx, P)
+    dash_line_tolerates_trailing_blanks(ctx, P)
     stream.zero_result_of_empty_request(ctx, P)
     b = ctx.body('armor::reader::Dearmor::<R>::read_footer')
     if b is not None:
